@@ -184,9 +184,11 @@ def slices(ctx, cone):
         if b["glue"]:
             continue
         reach = F.reachable_blocks(b)
+        # a closure that is not a syscall hook is analysed where it is called: inside the run of its function
+        kk = k if "{closure" not in k or k.startswith("helpers::syscalls::") else k.split("::{closure")[0]
         for i, blk in enumerate(b["blocks"]):
             if i in reach and seq_site(blk["term"]):
-                by_body.setdefault(k, []).append(F.site_str(b, blk["term"]["sp"]))
+                by_body.setdefault(kk, []).append(F.site_str(b, blk["term"]["sp"]))
     nsites = sum(len(v) for v in by_body.values())
     ck.cov["slice_sites"] = nsites
     ck.cov["slice_sites_in_bounds_analysed_accessors"] = sum(len(v) for k, v in by_body.items() if k in acc)
@@ -243,7 +245,7 @@ def slices(ctx, cone):
 
         def icpt(I, path, frame, t, name, args, _chain=[None]):
             kind = seq_site(t)
-            if kind and frame.body["path"] == k:
+            if kind and (frame.body["path"] == k or frame.body["path"].startswith(k + "::{closure")):
                 site = F.site_str(frame.body, t["sp"])
                 seen_sites.add(site)
                 a = [I._deref_all(path, x) for x in args]
@@ -521,6 +523,14 @@ def decode(ctx):
             return [(A.INT(1, 8), path), (A.INT(0, 8), p2)]
         if name.startswith("iced_x86::Decoder") and short == "decode":
             return [(("decoded",), path)]
+        if name.startswith("iced_x86::Decoder") and short in ("iter", "into_iter"):
+            return [(("deciter",), path)]
+        if short == "next" and "DecoderIter" in name + " ".join(t["f"].get("gargs", [])):
+            # library fact (iced): the iterator yields decode() while can_decode(), then None
+            p2 = path.copy()
+            path.events.append(("can_decode", 1))
+            p2.events.append(("can_decode", 0))
+            return [(A.SOME(("decoded",)), path), (A.NONE, p2)]
         if name == "iced_x86::Instruction::is_invalid":
             p2 = path.copy()
             path.events.append(("invalid", 1))
